@@ -134,7 +134,7 @@ def _one_run(case, order, cont, ctx, use_proxy, label):
     rg = [j for j, l in enumerate(desc["leaves"]) if l["rg"]]
     twin_rg = [twin.leaves[j] for j in rg]
     reach = dict(zip(rg, P.reachable(twin.outputs, twin_rg)))
-    sym = set().union(*[set(desc["deps"][o]) for o in desc["outputs"]])
+    sym = set().union(*[set(desc["deps"][o]) for o in desc["outputs"]]) if "deps" in desc else {j for j in rg if reach[j]}
     if {j for j in rg if reach[j]} != sym:
         ctx.inconclusive(f"harness self-check: symbolic deps {sorted(sym)} != behavioural {reach}")
         return None
